@@ -27,9 +27,16 @@ CMP = ("gz", "bz2", "zip")
 # ------------------------------------------------------------------ case construction
 
 
-def spec(name, kind="generic", types=("TA",), skip=True, out="TA", script=None):
+STYLES = ["func", "func_kwargs", "class", "func_args"]
+
+
+def spec(name, kind="generic", types=("TA",), skip=True, out="TA", script=None, style="func"):
+    """style: how the app is defined — "func": define_app on a function without constructor arguments;
+    "func_kwargs"/"func_args": function with a mutable constructor argument (keyword / positional) that the function
+    mutates on every call; "class": class-based app that keeps scratch state on the instance.  The model ignores it:
+    the result for an input must not depend on what went through the same instance before."""
     return dict(name=name, kind=kind, types=None if types is None else list(types), skip=skip, out=out,
-                script=dict(script or {}))
+                script=dict(script or {}), style=style)
 
 
 def sinput(s):
@@ -72,10 +79,11 @@ def apply_pattern(specs, key, pat):
         specs[st]["script"][key] = list(act)
 
 
-def std_pipeline(ngeneric):
-    specs = [spec("ld", kind="loader", types=("str",), out="TA")]
+def std_pipeline(ngeneric, rot=0):
+    """loader + generic stages; the definition styles rotate over the stages (and, with [rot], over the cases)"""
+    specs = [spec("ld", kind="loader", types=("str",), out="TA", style=STYLES[rot % 4])]
     for j in range(ngeneric):
-        specs.append(spec(f"g{j+1}", types=("TA",), out="TA"))
+        specs.append(spec(f"g{j+1}", types=("TA",), out="TA", style=STYLES[(rot + j + 1) % 4]))
     return specs
 
 
@@ -429,7 +437,7 @@ def exhaustive_core(n, ngeneric, patterns, with_perms=True, logging=False, membe
             perms = rng.sample(all_perms, max_perms)
         scheds = [None] + perms
         for sched in scheds:
-            specs = std_pipeline(ngeneric)
+            specs = std_pipeline(ngeneric, rot=len(cases))
             if members:
                 specs[0]["types"] = None   # the loader is handed DataMember objects
             for nm, pat in zip(names, pats):
@@ -461,12 +469,12 @@ def hazard_cases(tier):
         for pos in (0, 1):
             ins = [sinput("a.fa")] if falsy["t"] == "str" else [oinput("k1", "o1.fa")]
             ins.insert(pos, falsy)
-            specs = std_pipeline(1) if falsy["t"] == "str" else [spec("g1"), spec("g2")]
+            specs = std_pipeline(1) if falsy["t"] == "str" else [spec("g1", style="func_args"), spec("g2", style="class")]
             cases.append(dict(block="falsy-input", phases=[phase(specs, ins, None)]))
     # objects carrying their own .source (not proxied): results that lose it
     for act in (None, ["ncsrc", "FALSE"], ["raise", "boom"], ["none"], ["ncnosrc", "FALSE"], ["dropsrc"], ["str"]):
         for sched in (None, [1, 0]):
-            specs = [spec("g1"), spec("g2")]
+            specs = [spec("g1", style="func_args"), spec("g2", style="class")]
             if act:
                 specs[1]["script"]["k2"] = act
             cases.append(dict(block="bare-input", phases=[phase(specs, [oinput("k1", "o1.fa"), oinput("k2", "d/o2.fa")], sched)]))
@@ -515,10 +523,12 @@ def random_case(rng, tier):
         specs = []
         for j in range(nst):
             if j == 0 and has_loader:
-                sp = spec("ld", kind="loader", types=None if members else rng.choice([("str",), None]), out="TA")
+                sp = spec("ld", kind="loader", types=None if members else rng.choice([("str",), None]), out="TA",
+                          style=rng.choice(STYLES))
             else:
                 types = rng.choice([("TA",), ("TA",), ("TA", "TB"), None, ("TB",)] if j > 0 or has_loader else [("str",), None])
-                sp = spec(f"g{j}", types=types, out=rng.choice(["TA", "TA", "TB"]), skip=rng.random() < 0.9)
+                sp = spec(f"g{j}", types=types, out=rng.choice(["TA", "TA", "TB"]), skip=rng.random() < 0.9,
+                          style=rng.choice(STYLES))
             specs.append(sp)
         names = names_all if pi == 0 else rng.sample(pool, rng.randint(1, min(len(pool), 7)))
         for nm in names:
@@ -546,7 +556,7 @@ def real_parallel_cases(rng, tier):
 
     def one(nin, workers, extra=None, opts=None, skew=True, logging=False):
         names = rng.sample(TAME, nin)
-        specs = std_pipeline(2)
+        specs = std_pipeline(2, rot=rng.randrange(4))
         delays = {}
         for k, nm in enumerate(names):
             if rng.random() < 0.4:
@@ -563,7 +573,16 @@ def real_parallel_cases(rng, tier):
             c = one(3, w, skew=False)
             apply_pattern(c["phases"][0]["specs"], c["phases"][0]["inputs"][0]["s"], (1, ["raise", "bang"]))
             cases.append(c)
+        # explicit chunksize that does not divide the number of inputs / exceeds it
+        for n, cs, w in ((3, 2, 2), (4, 3, 1), (5, 6, 2), (7, 3, 3)):
+            cases.append(one(n, w, extra=dict(chunksize=cs), skew=False))
         return cases
+    ws = [1, 2, 3, None]
+    k = 0
+    for n in (3, 4, 5, 7):
+        for cs in (1, 2, 3, n - 1, n + 1):
+            cases.append(one(n, ws[k % 4], extra=dict(chunksize=cs), skew=(k % 3 == 0)))
+            k += 1
     for w in (1, 2, 3, None):
         for _ in range(5):
             cases.append(one(rng.randint(3, 8), w))
